@@ -98,3 +98,30 @@ Theorem dump_alloc_bound f base after before :
   | DumpOk es | DumpErr es => Forall (fun e : N * bytes => len (snd e) <= MaxEntrySize) es
   end.
 Proof. unfold dump_segment. apply dump_go_bound. constructor. Qed.
+
+(* DumpLogs: every entry handed to the callback is at most MaxEntrySize long,
+   whatever the files contain *)
+Lemma dump_logs_go_bound files : forall after before acc,
+  Forall (fun e : N * bytes => len (snd e) <= MaxEntrySize) acc ->
+  match dump_logs_go files after before acc with
+  | DumpOk es | DumpErr es => Forall (fun e : N * bytes => len (snd e) <= MaxEntrySize) es
+  end.
+Proof.
+  induction files as [|[[id base] f] r IH]; intros after before acc Ha; cbn [dump_logs_go]; [exact Ha|].
+  destruct ((0 <? after) && (0 <? match r with (_, b, _) :: _ => b | [] => 0 end)
+            && (match r with (_, b, _) :: _ => b | [] => 0 end <=? after)); [apply IH; exact Ha|].
+  destruct ((0 <? before) && (before <=? base)); [exact Ha|].
+  pose proof (dump_alloc_bound f base after before) as Hb.
+  destruct (dump_segment f base after before) as [es|es].
+  - apply IH. apply Forall_app. split; assumption.
+  - apply Forall_app. split; assumption.
+Qed.
+
+Theorem dump_logs_alloc_bound badname files after before :
+  match dump_logs badname files after before with
+  | DumpOk es | DumpErr es => Forall (fun e : N * bytes => len (snd e) <= MaxEntrySize) es
+  end.
+Proof.
+  unfold dump_logs. destruct badname; [constructor|].
+  apply dump_logs_go_bound. constructor.
+Qed.
